@@ -14,6 +14,7 @@ import EaselModel.Sqio.WindowSeries
 import EaselModel.Sqio.BlockSpec
 import EaselModel.Sqio.RoundTrip
 import EaselModel.Sqio.LineSpec
+import EaselModel.Sqio.RevWindowSpec
 /-! # C04 — all ways of reading a sequence file agree with each other and with the file
 
 Property theorems only (proofs are glue on `Sqio/Windows.lean`, `Sqio/Refine.lean`, `Sqio/Spec.lean`).
@@ -29,7 +30,8 @@ description, residues, true `roff` / `hoff` / `doff` / `eoff`, `L`), hence is bl
 `ReadSequence` agree field by field (`read_readInfo_readSequence_agree`); the forward `ReadWindow` series delivers the residues of
 `Read` (`windows_concat_eq_read`, see the section at the end); the window schedule (forward and reverse) tiles `1..L`
 (`fwd_windows_tile`, `rev_windows_tile`). Still tied by the exact differential run + monitors only: the line-based formats,
-reverse-strand windows end to end, long-target `ReadBlock`, digital-mode write + re-read (text mode: `write_read_roundtrip`). -/
+reverse-strand windows when the handle holds a line geometry (without one: `rev_first_window_eq_revcomp_slice`, `rev_next_window_eq_revcomp_slice`),
+long-target `ReadBlock`, digital-mode write + re-read (text mode: `write_read_roundtrip`). -/
 namespace EaselModel.Props.C04
 open EaselModel.Sqio EaselModel.Sqio.Windows
 
@@ -498,6 +500,56 @@ example : Good (inmapFasta 0) ([97], [120, 32, 121], List.replicate 61 65) ∧ G
     subst this; decide +kernel
   · intro c t h; cases h
 
+
+/-! ## Reverse-strand windows end to end (round 4), brute-force addressing -/
+
+open EaselModel.Sqio.ParseFasta EaselModel.Sqio.RevWindowSpec in
+/-- **First reverse-strand window = reverse complement of the top `min W L` residues of the scanned record, for every block size.**
+    `s` is a record of the sequential scan; `sq` is as the forward pass left it at `eslEOD` (`start = end = 0`, `L`, `doff` of the record);
+    `a` any block-mode handle on the file that holds no line geometry (`bpl ≤ 0 ∨ rpl ≤ 0`: unset or invalidated, the brute-force case
+    that the repair 2dacdd7 made the fallback). The call returns `esl_sq_ReverseComplement` (`revOf` = `revcomp` of the slice, with its
+    status: `eslEINVAL` for a text residue without complement, `eslEINCOMPAT` for an alphabet without one) of `s.seq[start..L]`,
+    `start = max 1 (L − W + 1)`, coordinates swapped. -/
+theorem rev_first_window_eq_revcomp_slice (bytes : Bytes) (abc : Nat) (habc : abc ∈ [0, 1, 2, 3]) (s : Sq) (hs : s ∈ (parseFasta abc bytes).1)
+    (a : Ascii) (hf : a.file = bytes) (hb : a.linebased = false) (hr : a.recording ≠ 1) (hB : 1 ≤ a.B)
+    (hi : a.inmap = inmapFasta abc) (heof : a.eofIsOk = true) (hgeo : a.trk.bpl ≤ 0 ∨ a.trk.rpl ≤ 0)
+    (sq : Sq) (hdig : sq.digital = (abc != 0)) (hsabc : sq.abc = abc) (hdoff : sq.doff = s.doff)
+    (hL : sq.L = s.L) (hL1 : 1 ≤ s.L) (hst : sq.start = 0) (hen : sq.end_ = 0) (C W : Int) (hW : 1 ≤ W) :
+    (readWindow a sq C (-W)).2.1 =
+      (revOf { sq with start := (revInit sq.L W).1, end_ := (revInit sq.L W).2, C := 0, W := (revInit sq.L W).2 - (revInit sq.L W).1 + 1 } s.seq).1 ∧
+    (readWindow a sq C (-W)).2.2 =
+      (revOf { sq with start := (revInit sq.L W).1, end_ := (revInit sq.L W).2, C := 0, W := (revInit sq.L W).2 - (revInit sq.L W).1 + 1 } s.seq).2.1 :=
+  RevWindowSpec.rev_first_window_brute bytes abc habc s hs a hf hb hr hB hi heof hgeo sq hdig hsabc hdoff hL hL1 hst hen C W hW
+
+open EaselModel.Sqio.ParseFasta EaselModel.Sqio.RevWindowSpec in
+/-- **Later reverse-strand windows**: `sq` holds the previous window (`end_` = its lower coordinate, `2 ≤ end_ ≤ L`); the call returns the
+    reverse complement of `s.seq[start .. end_ + c − 1]` with the schedule `revNext` (`c = min C (L − end_ + 1)` residues of context; by
+    `rev_windows_tile` these windows tile `1..L` downwards) -/
+theorem rev_next_window_eq_revcomp_slice (bytes : Bytes) (abc : Nat) (habc : abc ∈ [0, 1, 2, 3]) (s : Sq) (hs : s ∈ (parseFasta abc bytes).1)
+    (a : Ascii) (hf : a.file = bytes) (hb : a.linebased = false) (hr : a.recording ≠ 1) (hB : 1 ≤ a.B)
+    (hi : a.inmap = inmapFasta abc) (heof : a.eofIsOk = true) (hgeo : a.trk.bpl ≤ 0 ∨ a.trk.rpl ≤ 0)
+    (sq : Sq) (hdig : sq.digital = (abc != 0)) (hsabc : sq.abc = abc) (hdoff : sq.doff = s.doff)
+    (hL : sq.L = s.L) (hst : sq.start ≠ 0) (hlo : 2 ≤ sq.end_) (hhi : sq.end_ ≤ s.L) (C W : Int) (hC : 0 ≤ C) (hW : 1 ≤ W) :
+    (readWindow a sq C (-W)).2.1 =
+      (revOf { sq with C := (revNext sq.L C W sq.end_).1, end_ := (revNext sq.L C W sq.end_).2.1,
+                       start := (revNext sq.L C W sq.end_).2.2.1, W := (revNext sq.L C W sq.end_).2.2.2 } s.seq).1 ∧
+    (readWindow a sq C (-W)).2.2 =
+      (revOf { sq with C := (revNext sq.L C W sq.end_).1, end_ := (revNext sq.L C W sq.end_).2.1,
+                       start := (revNext sq.L C W sq.end_).2.2.1, W := (revNext sq.L C W sq.end_).2.2.2 } s.seq).2.1 :=
+  RevWindowSpec.rev_next_window_brute bytes abc habc s hs a hf hb hr hB hi heof hgeo sq hdig hsabc hdoff hL hst hlo hhi C W hC hW
+
+open EaselModel.Sqio.ParseFasta in
+/-- non-vacuity on the executable model: `>a\nACGTAC\n` (DNA, B = 2): forward pass to `eslEOD`, then reverse windows of 4:
+    `GTAC` (= revcomp of residues 3..6, coordinates 6..3), then `GT` + context... here with `C = 0`: `GT` (revcomp of `AC`, 2..1) -/
+example :
+    let a := openFasta #[62, 97, 10, 65, 67, 71, 84, 65, 67, 10] 2 0
+    let r1 := readWindow a (freshSq 0).reuse 0 100
+    let r2 := readWindow r1.1 r1.2.1 0 100
+    let r3 := readWindow r2.1 r2.2.1 0 (-4)
+    let r4 := readWindow r3.1 r3.2.1 0 (-4)
+    r2.2.2 = Status.eod ∧ r3.2.2 = Status.ok ∧ r3.2.1.seq = #[71, 84, 65, 67] ∧ r3.2.1.start = 6 ∧ r3.2.1.end_ = 3 ∧
+    r4.2.2 = Status.ok ∧ r4.2.1.seq = #[71, 84] ∧ r4.2.1.start = 2 ∧ r4.2.1.end_ = 1 := by
+  decide +kernel
 
 /-! ## The line-based formats (EMBL / UniProt / GenBank / DDBJ), round 4: the line loader is block-size independent -/
 
